@@ -396,6 +396,63 @@ def numeric_witness(pairs, sampler, tries=200, seed=0, rtol=1e-6, pathcond=None,
     return None
 
 
+def path_search(pv, sampler, normalise=None, seed=0, restarts=12, iters=600):
+    """Find an input that satisfies the path condition of pv by randomised local search on a penalty (sum of the violated
+    comparisons' margins).  sampler(rng) gives start points, normalise(env) restores representation constraints after a move.
+    Returns an env or None.  Used only to look for WITNESSES (a found input is checked with path_holds)."""
+    conds = [a[0] for a in pv.atoms]
+    want = [a[1] for a in pv.atoms]
+    if not conds:
+        return None
+    operands = []
+    for c in conds:
+        if c.op == "fcmp":
+            operands += [c.args[1], c.args[2]]
+    roots = conds + operands
+
+    def penalty(env):
+        try:
+            val = dag.eval_ieee(roots, env)
+        except Exception:
+            return math.inf
+        tot = 0.0
+        for c, w in zip(conds, want):
+            if bool(val[c.id]) == w:
+                continue
+            if c.op == "fcmp":
+                a, b = val[c.args[1].id], val[c.args[2].id]
+                if a != a or b != b:
+                    return math.inf
+                tot += abs(a - b) + 1e-300
+            else:
+                tot += 1.0
+        return tot
+    rng = random.Random(seed)
+    for _ in range(restarts):
+        env = sampler(rng)
+        if normalise:
+            normalise(env)
+        best = penalty(env)
+        keys = [k for k, v in env.items() if isinstance(v, float)]
+        scale = 1.0
+        for it in range(iters):
+            if best == 0.0:
+                break
+            cand = dict(env)
+            for k in rng.sample(keys, max(1, min(len(keys), rng.choice([1, 1, 2, len(keys)])))):
+                cand[k] = cand[k] + rng.gauss(0, 1) * scale * (abs(cand[k]) + 1e-3)
+            if normalise:
+                normalise(cand)
+            pc = penalty(cand)
+            if pc < best:
+                env, best = cand, pc
+            else:
+                scale = max(scale * 0.93, 1e-14)
+        if best == 0.0 and path_holds(pv, env):
+            return env
+    return None
+
+
 def path_holds(pv, env):
     """Does the concrete input satisfy the path condition (evaluated in IEEE)?"""
     conds = [a[0] for a in pv.atoms]
